@@ -329,6 +329,9 @@ pub fn run() {
     // (c) jumps
     let jumps = jump_programs(!quick);
     run_family("c:relative-jumps", &jumps, &mut fam, &mut all);
+    // label / .EQU definitions and references in every letter-case combination, through every referencing form
+    let labels = corpus::label_programs();
+    run_family("label-case-combinations", &labels, &mut fam, &mut all);
     // (d) limits
     let limits = limit_programs();
     run_family("d:limits", &limits, &mut fam, &mut all);
